@@ -72,7 +72,7 @@ LOCATION_SENSITIVE = ("symlinked", "twins_v1", "twins_v2")
 
 
 def gen_params(rng):
-    p = {"package": "gen"}
+    p = {"package": "gen" if rng.random() < 0.85 else rng.choice(["gen.pkg", "gen.pkg.sub", "_gen", "Gen.Models"])}
     p["structure_style"] = rng.choice(["filenames", "namespaces", "clusters", "clusters", "single-package", "namespace-clusters"])
     if rng.random() < 0.5:
         p["docstring_style"] = rng.choice(["reStructuredText", "NumPy", "Google", "Accessible", "Blank"])
@@ -251,7 +251,7 @@ def minimize_env(source, recursive, params, env, ref, sigkind):
     """Reset environment components to E0 one at a time while the difference persists."""
     best = dict(env)
     trials = 0
-    for key in ("source_copy", "environ", "history_same_package", "history", "cache", "repeat", "dir_seed", "heap", "route", "clock", "hashseed"):
+    for key in ("source_copy", "environ", "history_same_package", "history", "cache", "repeat", "dir_seed", "heap", "init_roundtrip", "config_text", "config_version", "source_spelling", "optimize", "route", "clock", "hashseed"):
         default = E0.get(key, 0)
         if best.get(key, default) == default:
             continue
